@@ -42,4 +42,8 @@ func checkC02(c gen.ProgCase) Verdict {
 	return v
 }
 
-func TestC02(t *testing.T) { runPropCrashy(t, "C02", genC02, checkC02) }
+func TestC02(t *testing.T) {
+	fileRoute = true
+	defer func() { fileRoute = false }()
+	runPropCrashy(t, "C02", genC02, checkC02)
+}
